@@ -44,13 +44,17 @@ def run(*activities: Coroutine, start: float = 0, till: float = None):
     """
     if till is not None:
         async def root(_activities=activities, _till=till):
+            failure = None
             try:
                 async with until(time >= _till) as scope:
                     for activity in _activities:
                         scope.do(activity)
-            except Concurrent as failure:
+            except Concurrent as concurrent:
+                failure = concurrent.children[0]
+            if failure is not None:
                 # an activity's exception is reported as without ``till``
-                raise failure.children[0]
+                # (raised outside of the handler to keep its own context)
+                raise failure
         activities = root(_activities=activities, _till=till),
     loop = _Loop(*activities, start=start)
     loop.run()
